@@ -15,7 +15,11 @@ Hand-written, core Lean only. What is modelled (and from where):
                                               front of the layout's nodes), checker_statements.go
                                               `templateFileToPackage` (texts of an imported file are dropped),
                                               checker_expressions.go `checkRender` (render = call of a dummy
-                                              macro whose body is the file and whose format is the file's)
+                                              macro whose body is the file and whose format is the file's);
+                                              macros take parameters (string or format types) with constant
+                                              arguments; the macros of an imported or extending file have
+                                              package scope (forward references), those of a file that is
+                                              run see what was declared before them
 
 The guards under which the emitter takes a fast path are *parameters* (`Engine.macroGuard`,
 `Engine.renderGuard`): the driver and the theorems instantiate them with the regenerated ones. -/
@@ -29,6 +33,9 @@ inductive Format | text | html | css | js | json | markdown
 inductive Ctx
   | text | html | css | js | json | markdown | tag | quotedAttr | unquotedAttr
   | cssString | jsString | jsonString | tabCodeBlock | spacesCodeBlock
+  /-- `ContextQuotedAttr` / `ContextUnquotedAttr` with the emitter's `inURL` flag set: the whole value
+  of a URL attribute (`href`, `src`, …); the show goes through `showInURL` -/
+  | urlQuoted | urlUnquoted
   deriving DecidableEq, Repr, Inhabited
 
 def Format.all : List Format := [.text, .html, .css, .js, .json, .markdown]
@@ -45,6 +52,11 @@ def Ctx.code : Ctx → Nat
   | .text => 0 | .html => 1 | .css => 2 | .js => 3 | .json => 4 | .markdown => 5 | .tag => 6
   | .quotedAttr => 7 | .unquotedAttr => 8 | .cssString => 9 | .jsString => 10 | .jsonString => 11
   | .tabCodeBlock => 12 | .spacesCodeBlock => 13
+  | .urlQuoted => 7 | .urlUnquoted => 8
+
+/-- number on the driver's wire: the Go constant, 14 and 15 for the two URL variants -/
+def Ctx.wire : Ctx → Nat
+  | .urlQuoted => 14 | .urlUnquoted => 15 | c => c.code
 
 def Format.goName : Format → String
   | .text => "FormatText" | .html => "FormatHTML" | .css => "FormatCSS" | .js => "FormatJS"
@@ -56,9 +68,12 @@ def Ctx.goName : Ctx → String
   | .quotedAttr => "ContextQuotedAttr" | .unquotedAttr => "ContextUnquotedAttr"
   | .cssString => "ContextCSSString" | .jsString => "ContextJSString" | .jsonString => "ContextJSONString"
   | .tabCodeBlock => "ContextTabCodeBlock" | .spacesCodeBlock => "ContextSpacesCodeBlock"
+  | .urlQuoted => "ContextQuotedAttr" | .urlUnquoted => "ContextUnquotedAttr"
 
 def Format.ofCode (n : Nat) : Option Format := Format.all.find? (fun f => f.code == n)
 def Ctx.ofCode (n : Nat) : Option Ctx := Ctx.all.find? (fun c => c.code == n)
+def Ctx.ofWire (n : Nat) : Option Ctx :=
+  if n == 14 then some .urlQuoted else if n == 15 then some .urlUnquoted else Ctx.ofCode n
 
 /-- Go `ast.Context(format)`: the top-level context of a file of that format -/
 def Format.ctx : Format → Ctx
@@ -353,6 +368,14 @@ def inlineItem (qfmt : Format) : Item → Option Item
 
 def inlineDecls (q : File) : List Item :=
   q.items.filterMap (inlineItem q.format)
+
+/-- every import of the file precedes its macro declarations (`seen` = a declaration was met) -/
+def importsFirst : Bool → List Item → Bool
+  | _, [] => true
+  | seen, .import_ _ :: r => !seen && importsFirst seen r
+  | _, .macroDecl _ _ _ _ :: r => importsFirst true r
+  | seen, .atom _ :: r => importsFirst seen r
+  | seen, .extends_ _ :: r => importsFirst seen r
 
 /-- the macro name an atom calls -/
 def Atom.callee : Atom → Option Nat
